@@ -19,8 +19,10 @@
 (* the output equals F(inp) of RenderBase -- a function of the input       *)
 (* alone -- for every iteration order and every host history (Det), and    *)
 (* satisfies the partition / order predicates of C08.                      *)
-(* The faithful model is NOT deterministic in three places (history        *)
-(* variable kf); DetOrKnown excuses exactly those shapes, Det does not.    *)
+(* The faithful model is NOT a function of its input in one place (schema  *)
+(* "$ref" to a host file, history variable kf); DetOrKnown excuses exactly *)
+(* that shape, Det does not.  (Two more -- notes order, CRD order -- were  *)
+(* found with it and repaired in helm: d8ada2d, 2ac2ff2.)                  *)
 (***************************************************************************)
 EXTENDS RenderBase
 
@@ -33,12 +35,13 @@ VARIABLES ci,      \* index of the input (chart, values and options) in InputSeq
           deps,    \* Chart.Dependencies(): order in which LoadFiles added the subcharts
           parse,   \* order in which the templates are parsed
           win,     \* rank of the partial whose definition of "shared" is in force (0 = undefined)
+          pay,     \* payload of every document: the files are executed in parse order and share state
           notes,   \* notes text
           fo, fi,  \* SortManifests: file paths in processing order, cursor
           gen, hk, \* result.generic / result.hooks (document ids)
           out,     \* final [err, manifest, hooks, notes, crds]
           kf       \* known-finding sites passed in this behaviour
-vars == <<ci, host, pc, deps, parse, win, notes, fo, fi, gen, hk, out, kf>>
+vars == <<ci, host, pc, deps, parse, win, pay, notes, fo, fi, gen, hk, out, kf>>
 
 \* the input is carried as an index (small states); inp is the chart, values and options themselves
 InputSeqC == InputSeq      \* (a definition, so that TLC evaluates the configured sequence once)
@@ -51,28 +54,30 @@ Init ==
   /\ ci \in DOMAIN InputSeqC
   /\ host \in Hosts
   /\ pc = "load"
-  /\ deps = <<>> /\ parse = <<>> /\ win = 0 /\ notes = "" /\ fo = <<>> /\ fi = 0
-  /\ gen = <<>> /\ hk = <<>> /\ out = NoOut("none") /\ kf = {}
+  /\ deps = <<>> /\ parse = <<>> /\ win = 0 /\ pay = <<>> /\ notes = "" /\ fo = <<>> /\ fi = 0
+  /\ gen = <<>> /\ hk = <<>> /\ out = NoOut("none", 0) /\ kf = {}
 
 \* the world outside the chart moves at any time
 HostChange ==
   /\ pc # "done"
   /\ host' \in Hosts \ {host}
-  /\ UNCHANGED <<ci, pc, deps, parse, win, notes, fo, fi, gen, hk, out, kf>>
+  /\ UNCHANGED <<ci, pc, deps, parse, win, pay, notes, fo, fi, gen, hk, out, kf>>
 
-\* loader.LoadFiles: "for n, files := range subcharts { ... c.AddDependency(sc) }"
+\* loader.LoadFiles: the names of the subcharts map are collected ("for n := range subcharts"), sorted, and the
+\* subcharts added in that order  (fix 2ac2ff2; before it the map was walked directly: lead L21)
+SortCharts(s) == Vals(SortKeyed([j \in DOMAIN s |-> [key |-> ChartRank(s[j]), val |-> s[j]]]))
 Load ==
   /\ pc = "load"
-  /\ \E o \in IterateMap(Range(inp.subs)) : deps' = o
+  /\ \E o \in IterateMap(Range(inp.subs)) : deps' = SortCharts(o)
   /\ pc' = "deps"
-  /\ UNCHANGED <<ci, host, parse, win, notes, fo, fi, gen, hk, out, kf>>
+  /\ UNCHANGED <<ci, host, parse, win, pay, notes, fo, fi, gen, hk, out, kf>>
 
 \* chartutil.ProcessDependencies rebuilds the dependency list when Chart.yaml declares dependencies
 ProcessDeps ==
   /\ pc = "deps"
   /\ deps' = DepsAfterProcess(inp, deps)
   /\ pc' = "schema"
-  /\ UNCHANGED <<ci, host, parse, win, notes, fo, fi, gen, hk, out, kf>>
+  /\ UNCHANGED <<ci, host, parse, win, pay, notes, fo, fi, gen, hk, out, kf>>
 
 \* chartutil.ValidateAgainstSingleSchema: jsonschema.NewCompiler() resolves "$ref" with its default
 \* loader: "#/..." inside the document, "file:///..." and relative references (resolved against
@@ -87,8 +92,8 @@ Schema ==
   /\ kf' = IF inp.schema \in {"rel", "file"} THEN kf \cup {"L8-schema"} ELSE kf
   /\ IF SchemaEval(inp, host) = "accept"
        THEN pc' = "engine" /\ UNCHANGED out
-       ELSE pc' = "done" /\ out' = NoOut("schema")
-  /\ UNCHANGED <<ci, host, deps, parse, win, notes, fo, fi, gen, hk>>
+       ELSE pc' = "done" /\ out' = NoOut("schema", 0)
+  /\ UNCHANGED <<ci, host, deps, parse, win, pay, notes, fo, fi, gen, hk>>
 
 \* engine.Render: allTemplates builds a map; sortTemplates ranges over it and sorts; all files are
 \* parsed in that order (a later definition of a named template replaces an earlier one), then executed
@@ -98,19 +103,19 @@ Engine ==
        /\ parse' = SortTemplates(o)
        /\ win' = Winner(parse', Range(inp.parts))
   /\ IF RenderErr(inp, win') = "none"
-       THEN pc' = "notes" /\ UNCHANGED out
-       ELSE pc' = "done" /\ out' = NoOut(RenderErr(inp, win'))
+       THEN pc' = "notes" /\ pay' = PayMap(inp, parse', win') /\ UNCHANGED out       \* "for _, filename := range keys"
+       ELSE pc' = "done" /\ out' = NoOut(RenderErr(inp, win'), RenderErrAt(inp, parse', win')) /\ UNCHANGED pay
   /\ UNCHANGED <<ci, host, deps, notes, fo, fi, gen, hk, kf>>
 
-\* renderResources: "for k, v := range files { if HasSuffix(k, NOTES.txt) { if subNotes || k == parent
-\* { buffer += v } ; delete(files, k) } }" -- the buffer is filled in iteration order, NOT sorted
+\* renderResources: the NOTES.txt keys of the rendered map are collected, sorted, and the texts of those that
+\* pass (subNotes, or the parent's) joined in that order; all are deleted from the map
+\* (fix d8ada2d; before it the buffer was filled in map order: lead L8-notes)
 Notes ==
   /\ pc = "notes"
   /\ \E o \in IterateMap(Range(inp.notes)) :
-       notes' = JoinNotes(SelectSeq(o, LAMBDA p : p \in NotesPassing(inp)))
-  /\ kf' = IF KnownNotesShape(inp) THEN kf \cup {"L8-notes"} ELSE kf
+       notes' = JoinNotes(SelectSeq(SortInts(o), LAMBDA p : p \in NotesPassing(inp)))
   /\ pc' = "files"
-  /\ UNCHANGED <<ci, host, deps, parse, win, fo, fi, gen, hk, out>>
+  /\ UNCHANGED <<ci, host, deps, parse, win, pay, fo, fi, gen, hk, out, kf>>
 
 \* SortManifests: "for filePath := range files" then sort.Strings
 Files ==
@@ -118,7 +123,7 @@ Files ==
   /\ \E o \in IterateMap(TplPaths(inp)) : fo' = SortInts(o)
   /\ fi' = 1
   /\ pc' = "split"
-  /\ UNCHANGED <<ci, host, deps, parse, win, notes, gen, hk, out, kf>>
+  /\ UNCHANGED <<ci, host, deps, parse, win, pay, notes, gen, hk, out, kf>>
 
 \* per file: SplitManifests returns a map "manifest-N" -> document; manifestFile.sort ranges over it,
 \* sorts the keys by N and classifies every entry
@@ -131,23 +136,22 @@ Split ==
        /\ gen' = gen \o GenericOfFile(f, eo)
        /\ hk' = hk \o HooksOfFile(f, eo)
   /\ fi' = fi + 1
-  /\ UNCHANGED <<ci, host, pc, deps, parse, win, notes, fo, out, kf>>
+  /\ UNCHANGED <<ci, host, pc, deps, parse, win, pay, notes, fo, out, kf>>
 
 \* sortManifestsByKind / sortHooksByKind (sort.SliceStable), then the CRDs of --include-crds in
-\* CRDObjects order (own first, then the dependencies as LoadFiles happened to add them)
+\* CRDObjects order (own first, then the dependencies in Dependencies() order)
 Finish ==
   /\ pc = "split"
   /\ fi > Len(fo)
   /\ LET gs == KindSort(inp, gen, InstKey)
          hs == KindSort(inp, hk, InstKey) IN
-     out' = [err |-> "none",
-             manifest |-> [j \in DOMAIN gs |-> ManEntry(inp, gs[j], win)],
-             hooks |-> [j \in DOMAIN hs |-> HookEntry(inp, hs[j], win)],
+     out' = [err |-> "none", errAt |-> 0,
+             manifest |-> [j \in DOMAIN gs |-> ManEntry(inp, gs[j], pay)],
+             hooks |-> [j \in DOMAIN hs |-> HookEntry(inp, hs[j], pay)],
              notes |-> notes,
              crds |-> CrdOrder(inp, deps)]
-  /\ kf' = IF KnownCrdsShape(inp) THEN kf \cup {"L21-crds"} ELSE kf
   /\ pc' = "done"
-  /\ UNCHANGED <<ci, host, deps, parse, win, notes, fo, fi, gen, hk>>
+  /\ UNCHANGED <<ci, host, deps, parse, win, pay, notes, fo, fi, gen, hk, kf>>
 
 Next == HostChange \/ Load \/ ProcessDeps \/ Schema \/ Engine \/ Notes \/ Files \/ Split \/ Finish
 
@@ -158,18 +162,13 @@ Spec == Init /\ [][Next]_vars
 
 Det == pc = "done" => out = F(inp)
 
-Excused(o, r) ==
-  /\ o.err = r.err /\ o.manifest = r.manifest /\ o.hooks = r.hooks
-  /\ \/ o.notes = r.notes
-     \/ "L8-notes" \in kf /\ KnownNotesShape(inp) /\ o.notes \in PossibleNotes(inp)
-  /\ \/ o.crds = r.crds
-     \/ "L21-crds" \in kf /\ KnownCrdsShape(inp) /\ o.crds \in PossibleCrds(inp)
+Excused(o, r) == o = r
 
 DetOrKnown ==
   pc = "done" =>
     \/ Excused(out, F(inp))
     \/ /\ "L8-schema" \in kf /\ KnownSchemaShape(inp)
-       /\ (out = NoOut("schema") \/ Excused(out, F([inp EXCEPT !.schema = "none"])))
+       /\ (out = NoOut("schema", 0) \/ Excused(out, F([inp EXCEPT !.schema = "none"])))
 
 \* the single components (used to show WHERE the faithful model is not a function of its input)
 DetManifest == pc = "done" => (out.manifest = F(inp).manifest /\ out.hooks = F(inp).hooks) \/ out.err # F(inp).err
